@@ -414,3 +414,55 @@ Theorem tp_roll_answers_rejects_wrong prefer lo ve answers t o own i x :
 Proof.
   intros Hin Ht Hne H. apply Hne. exact (tp_roll_answers_ok_sound prefer lo ve answers t o own i x H Hin Ht).
 Qed.
+
+(* ---------------- what the theorem cannot say, because the code does not do it ---------------- *)
+
+(* (1) The statement is about the referenced periods as they were at the last round that recomputed, NOT as they are
+   now: a period whose own segments reach past now + 24 h (a day's ranges are produced as a whole) returns early from
+   UpdateRegion round after round and merges nothing.  Witness: own = everything, the update function returns the
+   region extended by 50000 s; the excluded period is started AFTER this one (empty at Start()) and has [1000, 2000)
+   from the first round on.  Every hypothesis of tp_rolling_updates holds, and three rounds later instant 1500 is still
+   inside although it lies in the excluded period's segment the whole time.  (finding reference-started-later) *)
+Theorem tp_rolling_current_view_refuted :
+  let upd := fun b e : Z => [(b, e + 50000)] in
+  let hz := fun e : Z => e + 50000 in
+  let ownP := fun _ : Z => true in
+  let x := [(1000, 2000)] in
+  let r0 : tp_rround := (0, [], [[]]) in
+  let rs : list tp_rround := [(300, [], [x]); (600, [], [x]); (900, [], [x])] in
+  (forall b e t, tp_inside_segs (upd b e) t = true -> ownP t = true) /\
+  (forall b e t, b <= e -> b <= t < hz e -> tp_inside_segs (upd b e) t = ownP t) /\
+  (forall e, e <= hz e) /\
+  (forall b e sg, In sg (upd b e) -> snd sg <= hz e) /\
+  tp_round_ok hz r0 /\ tp_env_ok hz r0 rs /\
+  snd (tp_roll upd true r0 rs) = r0 /\
+  tp_is_inside (fst (tp_roll upd true r0 rs)) 1500 = true /\
+  tp_region_spec true (ownP 1500) (tp_inside_any [] 1500) (tp_inside_any [x] 1500) = false.
+Proof.
+  cbv zeta. repeat split; try (vm_compute; reflexivity); try (cbn; lia);
+    try (intros sg Hin; cbn in Hin; intuition (subst; cbn; lia)); try (let Hq := fresh in intros Hq; exact Hq).
+  - intros b e t Hbe Ht. cbn. unfold tp_in_seg. cbn [fst snd]. lia.
+  - intros b e sg [<-|[]]. cbn. lia.
+Qed.
+
+(* (2) tp_round_mono cannot be dropped: an INCLUDED period whose inside set shrinks between two rounds (it excludes a
+   third period that is updated after it, so the newest stretch of its window lacks the exclusion for one round) leaves
+   what it wrongly reported in the including period for good - AddSegment is never undone.  Witness: own = nothing; the
+   included period shows [0, 90400) in one round and [0, 90000) + [90400, 90700) in the next; instants 90000..90399
+   stay inside although neither the own definition nor the included period (as seen in that very round, and ever
+   after) contains them.  (finding include-of-excluding-period) *)
+Theorem tp_rolling_needs_monotone_refuted :
+  let upd := fun _ _ : Z => @nil tp_seg in
+  let hz := fun e : Z => e in
+  let r0 : tp_rround := (0, [[(0, 86400)]], []) in
+  let r1 : tp_rround := (4000, [[(0, 90400)]], []) in
+  let r2 : tp_rround := (4300, [[(0, 90000); (90400, 90700)]], []) in
+  tp_round_ok hz r0 /\ tp_round_ok hz r1 /\ tp_round_ok hz r2 /\
+  snd (tp_roll upd true r0 [r1; r2]) = r2 /\
+  tp_ve_num (fst (tp_roll upd true r0 [r1; r2])) = 90700 /\
+  tp_is_inside (fst (tp_roll upd true r0 [r1; r2])) 90200 = true /\
+  tp_region_spec true false (tp_inside_any (tp_rr_incs r2) 90200) (tp_inside_any (tp_rr_excs r2) 90200) = false.
+Proof.
+  cbv zeta. repeat split; try (vm_compute; reflexivity);
+    intros sg Hin; cbn in Hin; intuition (subst; cbn; lia).
+Qed.
